@@ -395,6 +395,10 @@ class FsExecutor(object):
         if whence not in table:
             if r != E['INVAL']:
                 self.fail('errno:fd_seek:INVAL->%s' % ename(r), 'fd_seek with invalid whence %d returned %s' % (whence, ename(r)))
+            if self.agent.peek(RES, 8) != bytes([CANARY] * 8):
+                self.fail('guest-overwrite', 'fd_seek with invalid whence %d stored a new offset' % whence)
+            if d['kind'] == 'file':
+                self.check_position(fd)
             return
         err = None
         want = 0
@@ -477,12 +481,14 @@ class FsExecutor(object):
                  'path_filestat_get', 'path_create_directory', 'path_remove_directory', 'path_unlink_file', 'path_rename_old',
                  'path_rename_new', 'path_symlink', 'path_readlink')
 
-    def bad_fd_call(self, fn, fd, unstable):
-        """any descriptor-taking call on a closed / never-issued descriptor must fail with EBADF (and stay memory-safe)"""
-        self.record('bad_fd_call', fn, fd, unstable)
+    def bad_fd_call(self, fn, fd, unstable, absolute=False):
+        """any descriptor-taking call on a closed / never-issued descriptor must fail with EBADF (and stay memory-safe);
+        absolute=True: the guest paths of the path_* calls are absolute (the directory descriptor is then not needed to FORM the
+        host path, but it must be valid all the same)"""
+        self.record('bad_fd_call', fn, fd, unstable, absolute)
         a = self.agent
-        p, ln = self.put_path(b'a')
-        self.put_path(b'zz', PATHBUF2)
+        p, ln = self.put_path((self.real.encode() + b'/a') if absolute else b'a')
+        P2, L2 = self.put_path((self.real.encode() + b'/zz') if absolute else b'zz', PATHBUF2)
         put_iovs(a, [b'xy'])
         good = self.preopens[0]
         args = {
@@ -491,9 +497,9 @@ class FsExecutor(object):
             'fd_filestat_get': (fd, STATBUF), 'fd_fdstat_get': (fd, STATBUF), 'fd_prestat_get': (fd, RES),
             'fd_prestat_dir_name': (fd, DIRBUF, 64), 'fd_readdir': (fd, DIRBUF, 256, 0, RES), 'fd_sync': (fd,), 'fd_datasync': (fd,),
             'path_open': (fd, 0, p, ln, 0, RIGHTS_READ, RIGHTS_READ, 0, RES), 'path_filestat_get': (fd, 0, p, ln, STATBUF),
-            'path_create_directory': (fd, PATHBUF2, 2), 'path_remove_directory': (fd, PATHBUF2, 2),
-            'path_unlink_file': (fd, PATHBUF2, 2), 'path_rename_old': (fd, PATHBUF2, 2, good, PATHBUF2, 2),
-            'path_rename_new': (good, PATHBUF2, 2, fd, PATHBUF2, 2), 'path_symlink': (p, ln, fd, PATHBUF2, 2),
+            'path_create_directory': (fd, P2, L2), 'path_remove_directory': (fd, P2, L2),
+            'path_unlink_file': (fd, P2, L2), 'path_rename_old': (fd, P2, L2, good, P2, L2),
+            'path_rename_new': (good, P2, L2, fd, P2, L2), 'path_symlink': (p, ln, fd, P2, L2),
             'path_readlink': (fd, p, ln, DIRBUF, 64, RES),
         }[fn]
         real_fn = 'path_rename' if fn.startswith('path_rename') else fn
